@@ -191,7 +191,9 @@ def meta_ops(mod):
         "dec_text_noclass": lambda c: JsonParser(context=c).from_string(ta_json),
         "dec_shuffled_noclass": lambda c: JsonParser(context=c).from_string(sh_json),
         "dec_text": lambda c: DictDecoder(context=c).decode({"value": "t", "b": "x"}, mod.TextAttr),
+        "dec_subset_noclass": lambda c: JsonParser(context=c).from_string('{"value": "t", "a": 1}'),
         "by_fields": lambda c: getattr(c.find_type_by_fields({"value", "a"}), "__name__", None),
+        "by_fields_all": lambda c: getattr(c.find_type_by_fields({"value", "a", "b"}), "__name__", None),
         "all_vars": lambda c: [[v.name for v in c.build(k).get_all_vars()] for k in (mod.TextAttr, mod.Shuffled)],
         "xml_text": lambda c: XmlSerializer(context=c, config=cfg).render(ta),
         "xml_shuffled": lambda c: XmlParser(context=c).from_string(
@@ -215,13 +217,20 @@ def explore_meta(ctx, max_pre, limit):
     alone = {name: ("ok", fn(fresh())) for name, fn in ops.items()}
     names = list(ops)
     total = 0
+    # operations that meet in the same lazily computed / scratch state are explored EXHAUSTIVELY for one preemption
+    # (every yield point of the one, then the other to its end); the other pairs up to a limit
+    families = [{"dec_text_noclass", "dec_subset_noclass", "by_fields", "by_fields_all"},
+                {"enc_text", "enc_shuffled", "all_vars", "dec_text", "xml_text"}]
     for i, a in enumerate(names):
         for b in names[i:]:
+            related = any(a in f and b in f for f in families)
+            limit_ab = 600 if related else limit
+
             def run_once(prefix, a=a, b=b):
                 xctx = fresh()
                 return scheduler.run([lambda: ops[a](xctx), lambda: ops[b](xctx)], sched.choices(prefix))
 
-            for r in sched.explore(run_once, max_pre, limit):
+            for r in sched.explore(run_once, max_pre, limit_ab):
                 total += 1
                 ctx.case(json.dumps(("meta", a, b, [d.chosen for d in r.decisions])))
                 if r.diverged:
@@ -335,7 +344,7 @@ def run(ctx):
     n += explore_random(ctx, ms, scheduler, ctx.pick(30, 400), traces)
     ctx.extra["api_interleavings_explored"] = n
     # 3b. the shared binding metadata itself
-    ctx.extra["meta_interleavings_explored"] = explore_meta(ctx, 1, ctx.pick(40, 400))
+    ctx.extra["meta_interleavings_explored"] = explore_meta(ctx, 1, ctx.pick(25, 400))
     for i in range(0, len(traces), 2000):
         validate_traces(ctx, traces[i:i + 2000], f"Trace_ContextT batch {i // 2000}")
 
